@@ -1,11 +1,15 @@
 // C11 conformance harness: drives fcppt::intrusive::list / fcppt::intrusive::base and
-// fcppt::signal::object (plain and unregister flavour, with and without a result type)
-// through operation histories and records, after every operation, what every live list /
-// signal shows through its public interface:
-//   lists   : forward iteration, backward iteration (element ids), empty()
+// fcppt::signal::object (plain and unregister flavour, with and without a result type, with 0, 1
+// and 2 arguments) through operation histories and records, after every operation, what every
+// live list / signal shows through its public interface:
+//   lists   : forward iteration, forward iteration through const_iterator, backward iteration
+//             (element ids), empty(); where the held iterator stands (which element, which
+//             lists' end()/begin() it compares equal to)
 //   signals : empty(), and one call of every callable signal: which callbacks ran with which
-//             argument and result, every combiner invocation, the returned value; plus the
-//             unregister callbacks the operation itself ran.
+//             arguments and result, every combiner invocation, the returned value; plus the
+//             unregister callbacks the operation itself ran; who owns which connection
+//             (auto_connection holders - std::optional or fcppt::signal::optional_auto_connection -
+//             and fcppt::signal::auto_connection_container's).
 // It contains no expected values: spec/RingTrace.tla (TLC) is the judge.
 //
 // Every list, element, signal and connection is a separate heap object, created and destroyed
@@ -14,17 +18,25 @@
 // destroyed node.  At the end of a history everything still alive is destroyed by further,
 // logged, operations.
 //
+// "observed" histories additionally contain reentrant operations (a callback that connects a
+// new slot / drops another connection during the call, an unregister callback that drops another
+// connection): the documentation is silent about them, they are driven under the sanitizers and
+// logged, never judged.
+//
 //   c11_intrusive record OUT seed first count maxlen
 //   c11_intrusive replay FLAVOUR SCRIPTS.ndjson OUT [index of the first script]
 //                                                     (one JSON array of op records per line)
-//   flavours: list sig usig vsig uvsig
+//   c11_intrusive probe_drop_self         (a callback that drops its OWN connection; observation)
+//   flavours: list, and [u][v]sig[0|2]   (u = unregister::base, v = void result, arity 0/1/2)
 #include <common/vjson.hpp>
 
 #include <fcppt/intrusive/base.hpp>
 #include <fcppt/intrusive/list.hpp>
 #include <fcppt/signal/auto_connection.hpp>
+#include <fcppt/signal/auto_connection_container.hpp>
 #include <fcppt/signal/base.hpp>
 #include <fcppt/signal/object.hpp>
+#include <fcppt/signal/optional_auto_connection.hpp>
 #include <fcppt/signal/unregister/base.hpp>
 #include <fcppt/signal/unregister/function.hpp>
 
@@ -39,18 +51,51 @@
 namespace
 {
 constexpr int NL = 3; // list / signal slots 1..NL
-constexpr int NE = 8; // element / connection slots 1..NE
+constexpr int NE = 8; // element / connection / holder slots 1..NE
+constexpr int NB = 2; // connection containers 1..NB
 constexpr int walk_limit = 2 * (NL + NE);
 
 struct op
 {
   std::string name;
-  int l = 0, l2 = 0, e = 0, e2 = 0;
+  int l = 0, l2 = 0, e = 0, e2 = 0, b = 0, mode = 0;
 };
+
+op mk(char const *name, int l = 0, int l2 = 0, int e = 0, int e2 = 0, int b = 0, int mode = 0)
+{
+  op o;
+  o.name = name;
+  o.l = l;
+  o.l2 = l2;
+  o.e = e;
+  o.e2 = e2;
+  o.b = b;
+  o.mode = mode;
+  return o;
+}
 
 std::string op_prefix(int index, op const &o)
 {
-  return vj::J().kv("e", "op").kv("i", index).kv("op", o.name).kv("l", o.l).kv("l2", o.l2).kv("x", o.e).kv("x2", o.e2).s;
+  return vj::J().kv("e", "op").kv("i", index).kv("op", o.name).kv("l", o.l).kv("l2", o.l2).kv("x", o.e).kv("x2", o.e2).kv("b", o.b).kv("mode", o.mode).s;
+}
+
+bool lr(int x) { return x >= 1 && x <= NL; }
+bool er(int x) { return x >= 1 && x <= NE; }
+bool br(int x) { return x >= 1 && x <= NB; }
+std::size_t ix(int x) { return static_cast<std::size_t>(x); }
+int pick(vj::Rng &rng, std::vector<int> const &v) { return v[ix(static_cast<int>(rng.below(v.size())))]; }
+
+std::string weighted(vj::Rng &rng, std::vector<std::pair<char const *, int>> const &w)
+{
+  int total = 0;
+  for (auto const &p : w) total += p.second;
+  int x = static_cast<int>(rng.below(static_cast<std::uint64_t>(total)));
+  for (auto const &p : w)
+  {
+    if (x < p.second) return p.first;
+    x -= p.second;
+  }
+  return w.back().first;
 }
 
 // what a history can be run on
@@ -60,13 +105,18 @@ struct driver
   driver(driver const &) = delete;
   driver &operator=(driver const &) = delete;
   virtual ~driver() = default;
-  virtual bool llive(int l) const = 0;
-  virtual bool elive(int e) const = 0;
-  virtual void apply(op const &) = 0;
-  // ,"lists":[...],"elive":[...],"unreg":[...]
-  virtual std::string observe(int index) = 0;
-  virtual std::vector<std::string> kinds() const = 0;
-  virtual bool is_list() const = 0;
+  // the API precondition of the operation, decided from what the harness itself created / holds
+  virtual bool pre(op const &) const = 0;
+  virtual void apply(op const &, int index) = 0;
+  // ,"lists":[...],"elive":[...],...
+  virtual std::string observe(int index, op const &) = 0;
+  // level 0: only the operations the statement of C11 names; 1: all judged operations;
+  // 2: also the reentrant (observed only) ones
+  virtual bool random_op(vj::Rng &, op &, int level) const = 0;
+  // the next operation that destroys something still alive (false: nothing is left)
+  virtual bool next_cleanup(op &, unsigned order, vj::Rng *) const = 0;
+  // how many destroying operations are needed to end the history now
+  virtual int alive_count() const = 0;
 };
 
 // ------------------------------------------------------------------------------ lists
@@ -91,22 +141,87 @@ struct list_driver : driver
 {
   std::array<std::unique_ptr<list_t>, NL + 1> L;
   std::array<std::unique_ptr<elem>, NE + 1> E;
+  std::optional<list_t::iterator> it; // the one held iterator
+  bool ret_old = true;                // postfix step returned the old position
 
-  bool llive(int l) const override { return L[static_cast<std::size_t>(l)] != nullptr; }
-  bool elive(int e) const override { return E[static_cast<std::size_t>(e)] != nullptr; }
-  bool is_list() const override { return true; }
-  std::vector<std::string> kinds() const override
+  bool llive(int l) const { return L[ix(l)] != nullptr; }
+  bool elive(int e) const { return E[ix(e)] != nullptr; }
+  std::vector<int> lists(bool live) const
   {
-    return {"list_ctor", "list_move_ctor", "list_move_assign", "list_dtor", "elem_ctor",
-            "elem_move_ctor", "elem_move_assign", "elem_dtor", "unlink"};
+    std::vector<int> r;
+    for (int k = 1; k <= NL; ++k)
+      if (llive(k) == live) r.push_back(k);
+    return r;
+  }
+  std::vector<int> elems(bool live) const
+  {
+    std::vector<int> r;
+    for (int k = 1; k <= NE; ++k)
+      if (elive(k) == live) r.push_back(k);
+    return r;
   }
 
-  void apply(op const &o) override
+  // Is this address one of the live element objects?  (Never dereferences the pointer: a walk
+  // that reaches anything else - a head of another list, a destroyed node - stops there.)
+  int live_elem_id(elem const *p) const
   {
-    auto &l = L[static_cast<std::size_t>(o.l)];
-    auto &l2 = L[static_cast<std::size_t>(o.l2)];
-    auto &e = E[static_cast<std::size_t>(o.e)];
-    auto &e2 = E[static_cast<std::size_t>(o.e2)];
+    for (int j = 1; j <= NE; ++j)
+      if (E[ix(j)].get() == p) return j;
+    return 0;
+  }
+  // where the held iterator stands, by address / operator== only
+  int it_elem() const { return it ? live_elem_id(&**it) : 0; }
+  std::vector<int> it_end_of() const
+  {
+    std::vector<int> r;
+    if (it)
+      for (int k : lists(true))
+        if (*it == L[ix(k)]->end()) r.push_back(k);
+    return r;
+  }
+  std::vector<int> it_begin_of() const
+  {
+    std::vector<int> r;
+    if (it)
+      for (int k : lists(true))
+        if (*it == L[ix(k)]->begin()) r.push_back(k);
+    return r;
+  }
+  // stepping is memory safe (and defined for a bidirectional iterator) only from these positions
+  bool can_inc() const { return it && it_elem() != 0; }
+  bool can_dec() const
+  {
+    if (!it) return false;
+    if (it_elem() != 0) return it_begin_of().empty();
+    for (int k : it_end_of())
+      if (!L[ix(k)]->empty()) return true;
+    return false;
+  }
+
+  bool pre(op const &o) const override
+  {
+    std::string const &n = o.name;
+    if (n == "list_ctor") return lr(o.l) && !llive(o.l);
+    if (n == "list_move_ctor") return lr(o.l) && lr(o.l2) && !llive(o.l) && llive(o.l2);
+    if (n == "list_move_assign") return lr(o.l) && lr(o.l2) && o.l != o.l2 && llive(o.l) && llive(o.l2);
+    if (n == "list_dtor") return lr(o.l) && llive(o.l);
+    if (n == "elem_ctor") return er(o.e) && lr(o.l) && !elive(o.e) && llive(o.l);
+    if (n == "elem_move_ctor") return er(o.e) && er(o.e2) && !elive(o.e) && elive(o.e2);
+    if (n == "elem_move_assign") return er(o.e) && er(o.e2) && o.e != o.e2 && elive(o.e) && elive(o.e2);
+    if (n == "elem_dtor" || n == "unlink") return er(o.e) && elive(o.e);
+    if (n == "iter_begin" || n == "iter_end") return lr(o.l) && llive(o.l);
+    if (n == "iter_inc") return can_inc();
+    if (n == "iter_dec") return can_dec();
+    if (n == "iter_drop") return it.has_value();
+    return false;
+  }
+
+  void apply(op const &o, int) override
+  {
+    auto &l = L[ix(o.l)];
+    auto &l2 = L[ix(o.l2)];
+    auto &e = E[ix(o.e)];
+    auto &e2 = E[ix(o.e2)];
     if (o.name == "list_ctor") l = std::make_unique<list_t>();
     else if (o.name == "list_move_ctor") l = std::make_unique<list_t>(std::move(*l2));
     else if (o.name == "list_move_assign") *l = std::move(*l2);
@@ -116,55 +231,134 @@ struct list_driver : driver
     else if (o.name == "elem_move_assign") e->take(std::move(*e2));
     else if (o.name == "elem_dtor") e.reset();
     else if (o.name == "unlink") e->unlink();
+    else if (o.name == "iter_begin") it = l->begin();
+    else if (o.name == "iter_end") it = l->end();
+    else if (o.name == "iter_inc" || o.name == "iter_dec")
+    {
+      bool const inc = o.name == "iter_inc";
+      if (o.mode == 0)
+      {
+        if (inc) ++*it; else --*it;
+        ret_old = true;
+      }
+      else
+      {
+        list_t::iterator const old = *it;
+        list_t::iterator const r = inc ? (*it)++ : (*it)--;
+        ret_old = (r == old);
+      }
+    }
+    else if (o.name == "iter_drop") it.reset();
     else throw std::runtime_error("unknown list op " + o.name);
   }
 
-  // Is this address one of the live element objects?  (Never dereferences the pointer: a walk
-  // that reaches anything else - a head of another list, a destroyed node - stops there.)
-  bool is_live_elem(elem const *p) const
+  std::string observe(int, op const &) override
   {
-    for (int j = 1; j <= NE; ++j)
-      if (E[static_cast<std::size_t>(j)].get() == p) return true;
-    return false;
-  }
-
-  std::string observe(int) override
-  {
-    vj::J lists('[');
+    vj::J lists_j('[');
     for (int k = 1; k <= NL; ++k)
     {
       vj::J r;
-      auto &lp = L[static_cast<std::size_t>(k)];
-      std::vector<int> fwd, bwd;
-      bool fok = true, bok = true, empty = true;
+      auto &lp = L[ix(k)];
+      std::vector<int> fwd, cfwd, bwd;
+      bool fok = true, cok = true, bok = true, empty = true;
       if (lp)
       {
         list_t &l = *lp;
-        empty = l.empty();
+        list_t const &cl = *lp;
+        empty = cl.empty();
         int steps = 0;
-        for (list_t::iterator it = l.begin(); it != l.end(); ++it)
+        for (list_t::iterator i = l.begin(); i != l.end(); ++i)
         {
-          elem *p = &*it;
-          if (!is_live_elem(p) || ++steps > walk_limit) { fok = false; break; }
-          fwd.push_back(p->id);
+          int const id = live_elem_id(&*i);
+          if (id == 0 || ++steps > walk_limit) { fok = false; break; }
+          fwd.push_back((*i).id);
         }
         steps = 0;
-        for (list_t::iterator it = l.end();;)
+        for (list_t::const_iterator i = cl.begin(); i != cl.end(); ++i)
         {
-          --it;
-          if (it == l.end()) break;
-          elem *p = &*it;
-          if (!is_live_elem(p) || ++steps > walk_limit) { bok = false; break; }
-          bwd.push_back(p->id);
+          int const id = live_elem_id(&*i);
+          if (id == 0 || ++steps > walk_limit) { cok = false; break; }
+          cfwd.push_back((*i).id);
+        }
+        steps = 0;
+        for (list_t::iterator i = l.end();;)
+        {
+          --i;
+          if (i == l.end()) break;
+          int const id = live_elem_id(&*i);
+          if (id == 0 || ++steps > walk_limit) { bok = false; break; }
+          bwd.push_back((*i).id);
         }
       }
       r.kv("live", lp != nullptr);
-      if (lp) r.kv("empty", empty).kv("fwd", fwd).kv("bwd", bwd).kv("fok", fok).kv("bok", bok);
-      lists.el_raw(r.str());
+      if (lp) r.kv("empty", empty).kv("fwd", fwd).kv("cfwd", cfwd).kv("bwd", bwd).kv("fok", fok).kv("cok", cok).kv("bok", bok);
+      lists_j.el_raw(r.str());
     }
     std::vector<int> el;
     for (int j = 1; j <= NE; ++j) el.push_back(elive(j) ? 1 : 0);
-    return ",\"lists\":" + lists.str() + ",\"elive\":" + vj::arr(el) + ",\"unreg\":[]";
+    vj::J ij;
+    ij.kv("held", it.has_value()).kv("elem", it_elem()).kv("end_of", it_end_of()).kv("begin_of", it_begin_of()).kv("ret_old", ret_old);
+    return ",\"lists\":" + lists_j.str() + ",\"elive\":" + vj::arr(el) + ",\"unreg\":[],\"iter\":" + ij.str();
+  }
+
+  bool random_op(vj::Rng &rng, op &o, int const level) const override
+  {
+    static std::vector<std::pair<char const *, int>> const w0 = {
+        {"list_ctor", 4}, {"list_move_ctor", 3}, {"list_move_assign", 5}, {"list_dtor", 2}, {"elem_ctor", 8},
+        {"elem_move_ctor", 3}, {"elem_move_assign", 3}, {"elem_dtor", 4}};
+    static std::vector<std::pair<char const *, int>> const w = {
+        {"list_ctor", 4}, {"list_move_ctor", 3}, {"list_move_assign", 5}, {"list_dtor", 2}, {"elem_ctor", 8},
+        {"elem_move_ctor", 3}, {"elem_move_assign", 3}, {"elem_dtor", 4}, {"unlink", 2},
+        {"iter_begin", 3}, {"iter_end", 1}, {"iter_inc", 6}, {"iter_dec", 3}, {"iter_drop", 1}};
+    std::string const kind = weighted(rng, level == 0 ? w0 : w);
+    auto ll = lists(true), dl = lists(false), le = elems(true), de = elems(false);
+    o = op{};
+    o.name = kind;
+    if (kind == "list_ctor") { if (dl.empty()) return false; o.l = pick(rng, dl); }
+    else if (kind == "list_move_ctor") { if (dl.empty() || ll.empty()) return false; o.l = pick(rng, dl); o.l2 = pick(rng, ll); }
+    else if (kind == "list_move_assign")
+    {
+      if (ll.size() < 2) return false;
+      o.l = pick(rng, ll);
+      do o.l2 = pick(rng, ll); while (o.l2 == o.l);
+    }
+    else if (kind == "list_dtor" || kind == "iter_begin" || kind == "iter_end") { if (ll.empty()) return false; o.l = pick(rng, ll); }
+    else if (kind == "elem_ctor") { if (de.empty() || ll.empty()) return false; o.e = pick(rng, de); o.l = pick(rng, ll); }
+    else if (kind == "elem_move_ctor") { if (de.empty() || le.empty()) return false; o.e = pick(rng, de); o.e2 = pick(rng, le); }
+    else if (kind == "elem_move_assign")
+    {
+      if (le.size() < 2) return false;
+      o.e = pick(rng, le);
+      do o.e2 = pick(rng, le); while (o.e2 == o.e);
+    }
+    else if (kind == "elem_dtor" || kind == "unlink") { if (le.empty()) return false; o.e = pick(rng, le); }
+    else if (kind == "iter_inc" || kind == "iter_dec") o.mode = rng.coin() ? 1 : 0;
+    return pre(o);
+  }
+
+  int alive_count() const override { return static_cast<int>(lists(true).size() + elems(true).size()) + (it ? 1 : 0); }
+
+  bool next_cleanup(op &o, unsigned order, vj::Rng *rng) const override
+  {
+    if (it) { o = mk("iter_drop"); return true; }
+    auto ls = lists(true), es = elems(true);
+    if (ls.empty() && es.empty()) return false;
+    bool list_first;
+    if (rng != nullptr)
+    {
+      std::size_t const p = static_cast<std::size_t>(rng->below(ls.size() + es.size()));
+      o = p < ls.size() ? mk("list_dtor", ls[p]) : mk("elem_dtor", 0, 0, es[p - ls.size()]);
+      return true;
+    }
+    switch (order % 3U)
+    {
+    case 0: list_first = true; break;  // lists before their elements
+    case 1: list_first = false; break;
+    default: list_first = ((ls.size() + es.size()) % 2U) == 0U; break; // interleaved
+    }
+    if ((list_first && !ls.empty()) || es.empty()) o = mk("list_dtor", order % 3U == 2U ? ls.back() : ls.front());
+    else o = mk("elem_dtor", 0, 0, order % 3U == 2U ? es.back() : es.front());
+    return true;
   }
 };
 
@@ -175,42 +369,143 @@ struct overrun
 
 struct cb_rec
 {
-  int c, arg, r;
+  int c;
+  std::vector<int> args;
+  int r;
 };
 struct comb_rec
 {
   int a, b, r;
 };
 
-template <typename Sig, bool Res, bool Unr>
+template <int Arity, bool Res>
+struct fn_type;
+template <> struct fn_type<0, true> { using type = int(); };
+template <> struct fn_type<1, true> { using type = int(int); };
+template <> struct fn_type<2, true> { using type = int(int, int); };
+template <> struct fn_type<0, false> { using type = void(); };
+template <> struct fn_type<1, false> { using type = void(int); };
+template <> struct fn_type<2, false> { using type = void(int, int); };
+
+template <int Arity, bool Res, bool Unr>
+using sig_type = std::conditional_t<
+    Unr,
+    fcppt::signal::object<typename fn_type<Arity, Res>::type, fcppt::signal::unregister::base>,
+    fcppt::signal::object<typename fn_type<Arity, Res>::type>>;
+
+// the owner of a connection: an auto_connection inside a std::optional or inside an
+// fcppt::signal::optional_auto_connection (chosen per history)
+struct holder
+{
+  bool use_opt = false;
+  std::optional<fcppt::signal::auto_connection> s;
+  fcppt::signal::optional_auto_connection o;
+  int id = 0; // the connection it owns (0: none) - what the harness itself put there
+  fcppt::signal::auto_connection &ref() { return use_opt ? o.get_unsafe() : *s; }
+  void put(fcppt::signal::auto_connection &&c, int const _id)
+  {
+    if (use_opt) o = fcppt::signal::optional_auto_connection{std::move(c)};
+    else s.emplace(std::move(c));
+    id = _id;
+  }
+  fcppt::signal::auto_connection take()
+  {
+    fcppt::signal::auto_connection r{std::move(ref())};
+    clear();
+    return r;
+  }
+  void clear() // destroys the auto_connection object (and the connection if it still owns it)
+  {
+    if (use_opt) o = fcppt::signal::optional_auto_connection{};
+    else s.reset();
+    id = 0;
+  }
+};
+
+template <int Arity, bool Res, bool Unr>
 struct sig_driver : driver
 {
+  using Sig = sig_type<Arity, Res, Unr>;
   std::array<std::unique_ptr<Sig>, NL + 1> S;
-  std::array<std::optional<fcppt::signal::auto_connection>, NE + 1> C;
-  std::array<bool, NL + 1> has_comb{}; // generator-side precondition of a call (moved-from combiner)
+  std::array<holder, NE + 1> H;
+  std::array<std::optional<fcppt::signal::auto_connection_container>, NB + 1> B;
+  std::array<std::vector<int>, NB + 1> bid; // the connections the harness pushed into each container
+  std::array<bool, NL + 1> has_comb{};     // generator-side precondition of a call (moved-from combiner)
+  std::array<std::vector<int>, NL + 1> last_called;
   std::vector<cb_rec> cbs;
   std::vector<comb_rec> combs;
   std::vector<int> unreg;
-
-  bool llive(int l) const override { return S[static_cast<std::size_t>(l)] != nullptr; }
-  bool elive(int e) const override { return C[static_cast<std::size_t>(e)].has_value(); }
-  bool is_list() const override { return false; }
-  std::vector<std::string> kinds() const override
+  // reentrancy (observed histories only): what the callback of connection `who` does when it runs
+  struct pending_t
   {
-    return {"sig_ctor", "sig_move_ctor", "sig_move_assign", "sig_dtor", "connect", "disconnect"};
+    int kind = 0; // 1 connect holder `target` to signal `sig`, 2 drop holder `target`, 3 (unregister callback) drop holder `target`
+    int who = 0, target = 0, sig = 0;
+  } pending;
+
+  explicit sig_driver(bool const opt_holders)
+  {
+    for (auto &h : H) h.use_opt = opt_holders;
   }
 
-  int callback(int const c, int const arg)
+  bool llive(int l) const { return S[ix(l)] != nullptr; }
+  bool blive(int b) const { return B[ix(b)].has_value(); }
+  bool full(int h) const { return H[ix(h)].id != 0; }
+  bool conn_alive(int c) const
+  {
+    for (int h = 1; h <= NE; ++h)
+      if (H[ix(h)].id == c) return true;
+    for (int b = 1; b <= NB; ++b)
+      for (int x : bid[ix(b)])
+        if (x == c) return true;
+    return false;
+  }
+  bool callable(int l) const { return llive(l) && (!Res || has_comb[ix(l)]); }
+  std::vector<int> sigs(bool live) const
+  {
+    std::vector<int> r;
+    for (int k = 1; k <= NL; ++k)
+      if (llive(k) == live) r.push_back(k);
+    return r;
+  }
+  std::vector<int> holders(bool is_full) const
+  {
+    std::vector<int> r;
+    for (int k = 1; k <= NE; ++k)
+      if (full(k) == is_full) r.push_back(k);
+    return r;
+  }
+  std::vector<int> boxes(bool live) const
+  {
+    std::vector<int> r;
+    for (int k = 1; k <= NB; ++k)
+      if (blive(k) == live) r.push_back(k);
+    return r;
+  }
+
+  void run_pending(int const kind_wanted, int const who)
+  {
+    if (pending.kind != kind_wanted || pending.who != who) return;
+    pending_t const p = pending;
+    pending = pending_t{};
+    if (p.kind == 1) H[ix(p.target)].put(connect_to(p.sig, p.target), p.target);
+    else H[ix(p.target)].clear();
+  }
+
+  int callback(int const c, std::vector<int> args)
   {
     if (cbs.size() > static_cast<std::size_t>(walk_limit)) throw overrun{};
-    int const r = (c * 16 + arg * 5 + 3) % 251;
-    cbs.push_back(cb_rec{c, arg, r});
+    int r = c * 16 + 3;
+    for (int a : args) r = (r * 7 + a) % 251;
+    cbs.push_back(cb_rec{c, std::move(args), r});
+    run_pending(1, c);
+    run_pending(2, c);
     return r;
   }
 
   std::unique_ptr<Sig> make_signal()
   {
     if constexpr (Res)
+      // neither commutative nor associative: pins the LEFT fold and the initial value
       return std::make_unique<Sig>(typename Sig::combiner_function{[this](int const a, int const b) {
         int const r = (a * 3 + b + 1) % 9973;
         combs.push_back(comb_rec{a, b, r});
@@ -222,115 +517,308 @@ struct sig_driver : driver
 
   typename Sig::function make_function(int const c)
   {
-    if constexpr (Res)
-      return typename Sig::function{[this, c](int const arg) { return this->callback(c, arg); }};
+    if constexpr (Arity == 0)
+    {
+      if constexpr (Res) return typename Sig::function{[this, c]() { return this->callback(c, {}); }};
+      else return typename Sig::function{[this, c]() { this->callback(c, {}); }};
+    }
+    else if constexpr (Arity == 1)
+    {
+      if constexpr (Res) return typename Sig::function{[this, c](int const a) { return this->callback(c, {a}); }};
+      else return typename Sig::function{[this, c](int const a) { this->callback(c, {a}); }};
+    }
     else
-      return typename Sig::function{[this, c](int const arg) { this->callback(c, arg); }};
+    {
+      if constexpr (Res) return typename Sig::function{[this, c](int const a, int const b) { return this->callback(c, {a, b}); }};
+      else return typename Sig::function{[this, c](int const a, int const b) { this->callback(c, {a, b}); }};
+    }
   }
 
-  void apply(op const &o) override
+  fcppt::signal::auto_connection connect_to(int const l, int const id)
   {
-    auto const li = static_cast<std::size_t>(o.l);
-    auto const l2i = static_cast<std::size_t>(o.l2);
+    if constexpr (Unr)
+      return S[ix(l)]->connect(make_function(id), fcppt::signal::unregister::function{[this, id] {
+        unreg.push_back(id);
+        this->run_pending(3, id);
+      }});
+    else
+      return S[ix(l)]->connect(make_function(id));
+  }
+
+  bool pre(op const &o) const override
+  {
+    std::string const &n = o.name;
+    if (n == "sig_ctor") return lr(o.l) && !llive(o.l);
+    if (n == "sig_move_ctor") return lr(o.l) && lr(o.l2) && !llive(o.l) && llive(o.l2);
+    if (n == "sig_move_assign") return lr(o.l) && lr(o.l2) && o.l != o.l2 && llive(o.l) && llive(o.l2);
+    if (n == "sig_dtor") return lr(o.l) && llive(o.l);
+    if (n == "connect") return er(o.e) && lr(o.l) && !full(o.e) && !conn_alive(o.e) && llive(o.l);
+    if (n == "disconnect") return er(o.e) && full(o.e);
+    if (n == "hold_move") return er(o.e) && er(o.e2) && !full(o.e) && full(o.e2);
+    if (n == "hold_assign") return er(o.e) && er(o.e2) && o.e != o.e2 && full(o.e) && full(o.e2);
+    if (n == "box_ctor") return br(o.b) && !blive(o.b);
+    if (n == "box_push") return br(o.b) && blive(o.b) && er(o.e) && full(o.e);
+    if (n == "box_dtor") return br(o.b) && blive(o.b);
+    // observed only: o.e = the connection whose callback acts, o.e2 = the holder it acts on
+    if (n == "reent_connect") return lr(o.l) && callable(o.l) && er(o.e) && conn_alive(o.e) && er(o.e2) && !full(o.e2) && !conn_alive(o.e2);
+    if (n == "reent_drop") return lr(o.l) && callable(o.l) && er(o.e) && conn_alive(o.e) && er(o.e2) && full(o.e2) && H[ix(o.e2)].id != o.e;
+    if (n == "unreg_drop") return Unr && er(o.e) && full(o.e) && er(o.e2) && o.e2 != o.e && full(o.e2);
+    return false;
+  }
+
+  struct call_out
+  {
+    bool done = false, over = false, threw = false;
+    int init = 0, ret = 0;
+    std::vector<int> args;
+  };
+
+  call_out do_call(int const k, int const index)
+  {
+    call_out c;
+    c.init = (index * 7 + k) % 50;
+    int const a1 = (index + 3 * k) % 16, a2 = (index * 5 + k) % 11;
+    if (Arity >= 1) c.args.push_back(a1);
+    if (Arity >= 2) c.args.push_back(a2);
+    cbs.clear();
+    combs.clear();
+    Sig &s = *S[ix(k)];
+    c.done = true;
+    try
+    {
+      if constexpr (Res)
+      {
+        if constexpr (Arity == 0) c.ret = s(typename Sig::initial_value{c.init});
+        else if constexpr (Arity == 1) c.ret = s(typename Sig::initial_value{c.init}, a1);
+        else c.ret = s(typename Sig::initial_value{c.init}, a1, a2);
+      }
+      else
+      {
+        if constexpr (Arity == 0) s();
+        else if constexpr (Arity == 1) s(a1);
+        else s(a1, a2);
+      }
+    }
+    catch (overrun const &)
+    {
+      c.over = true;
+    }
+    catch (std::exception const &)
+    {
+      c.threw = true; // no callback of the harness throws this
+    }
+    return c;
+  }
+
+  void apply(op const &o, int const index) override
+  {
+    auto const li = ix(o.l), l2i = ix(o.l2);
     auto &s = S[li];
     auto &s2 = S[l2i];
-    auto &c = C[static_cast<std::size_t>(o.e)];
-    if (o.name == "sig_ctor") { s = make_signal(); has_comb[li] = true; }
-    else if (o.name == "sig_move_ctor") { s = std::make_unique<Sig>(std::move(*s2)); has_comb[li] = has_comb[l2i]; has_comb[l2i] = false; }
-    else if (o.name == "sig_move_assign") { *s = std::move(*s2); has_comb[li] = has_comb[l2i]; has_comb[l2i] = false; }
-    else if (o.name == "sig_dtor") { s.reset(); has_comb[li] = false; }
-    else if (o.name == "connect")
+    std::string const &n = o.name;
+    if (n == "sig_ctor") { s = make_signal(); has_comb[li] = true; }
+    else if (n == "sig_move_ctor") { s = std::make_unique<Sig>(std::move(*s2)); has_comb[li] = has_comb[l2i]; has_comb[l2i] = false; }
+    else if (n == "sig_move_assign") { *s = std::move(*s2); has_comb[li] = has_comb[l2i]; has_comb[l2i] = false; }
+    else if (n == "sig_dtor") { s.reset(); has_comb[li] = false; }
+    else if (n == "connect") H[ix(o.e)].put(connect_to(o.l, o.e), o.e);
+    else if (n == "disconnect") H[ix(o.e)].clear();
+    else if (n == "hold_move")
     {
-      int const id = o.e;
-      if constexpr (Unr)
-        c.emplace(s->connect(make_function(id), fcppt::signal::unregister::function{[this, id] { unreg.push_back(id); }}));
-      else
-        c.emplace(s->connect(make_function(id)));
+      int const id = H[ix(o.e2)].id;
+      H[ix(o.e)].put(H[ix(o.e2)].take(), id); // auto_connection move construction
     }
-    else if (o.name == "disconnect") c.reset();
-    else throw std::runtime_error("unknown signal op " + o.name);
+    else if (n == "hold_assign")
+    {
+      int const id = H[ix(o.e2)].id;
+      H[ix(o.e)].ref() = std::move(H[ix(o.e2)].ref()); // auto_connection move assignment
+      H[ix(o.e)].id = id;
+      H[ix(o.e2)].clear();
+    }
+    else if (n == "box_ctor") { B[ix(o.b)].emplace(); bid[ix(o.b)].clear(); }
+    else if (n == "box_push")
+    {
+      int const id = H[ix(o.e)].id;
+      B[ix(o.b)]->push_back(H[ix(o.e)].take());
+      bid[ix(o.b)].push_back(id);
+    }
+    else if (n == "box_dtor") { bid[ix(o.b)].clear(); B[ix(o.b)].reset(); }
+    else if (n == "reent_connect" || n == "reent_drop")
+    {
+      pending.kind = n == "reent_connect" ? 1 : 2;
+      pending.who = o.e;
+      pending.target = o.e2;
+      pending.sig = o.l;
+      do_call(o.l, index);
+      pending = pending_t{};
+    }
+    else if (n == "unreg_drop")
+    {
+      pending.kind = 3;
+      pending.who = H[ix(o.e)].id;
+      pending.target = o.e2;
+      H[ix(o.e)].clear();
+      pending = pending_t{};
+    }
+    else throw std::runtime_error("unknown signal op " + n);
   }
 
-  std::string observe(int const index) override
+  std::string observe(int const index, op const &) override
   {
-    vj::J lists('[');
+    vj::J lists_j('[');
     for (int k = 1; k <= NL; ++k)
     {
       vj::J r;
-      auto &sp = S[static_cast<std::size_t>(k)];
-      bool empty = true;
-      vj::J call;
-      bool done = false, over = false, threw = false;
-      int const init = (index * 7 + k) % 50, arg = (index + 3 * k) % 16;
-      int ret = 0;
-      cbs.clear();
-      combs.clear();
+      auto &sp = S[ix(k)];
+      r.kv("live", sp != nullptr);
       if (sp)
       {
-        empty = sp->empty();
-        if (!Res || has_comb[static_cast<std::size_t>(k)])
+        bool const empty = sp->empty();
+        call_out c;
+        cbs.clear();
+        combs.clear();
+        if (callable(k)) c = do_call(k, index);
+        else { c.init = 0; }
+        vj::J jc('['), jm('[');
+        last_called[ix(k)].clear();
+        for (auto const &x : cbs)
         {
-          done = true;
-          try
-          {
-            if constexpr (Res) ret = (*sp)(typename Sig::initial_value{init}, arg);
-            else (*sp)(arg);
-          }
-          catch (overrun const &)
-          {
-            over = true;
-          }
-          catch (std::exception const &)
-          {
-            threw = true; // no callback of the harness throws this
-          }
+          jc.el_raw(vj::J().kv("c", x.c).kv("args", x.args).kv("r", x.r).str());
+          last_called[ix(k)].push_back(x.c);
         }
+        for (auto const &x : combs) jm.el_raw(vj::J().kv("a", x.a).kv("b", x.b).kv("r", x.r).str());
+        vj::J call;
+        call.kv("done", c.done).kv("init", c.init).kv("args", c.args).kv("ret", c.ret).kv("over", c.over).kv("threw", c.threw).raw("cbs", jc.str()).raw("combs", jm.str());
+        r.kv("empty", empty).raw("call", call.str());
       }
-      vj::J jc('['), jm('[');
-      for (auto const &x : cbs) jc.el_raw(vj::J().kv("c", x.c).kv("arg", x.arg).kv("r", x.r).str());
-      for (auto const &x : combs) jm.el_raw(vj::J().kv("a", x.a).kv("b", x.b).kv("r", x.r).str());
-      call.kv("done", done).kv("init", init).kv("arg", arg).kv("ret", ret).kv("over", over).kv("threw", threw).raw("cbs", jc.str()).raw("combs", jm.str());
-      r.kv("live", sp != nullptr);
-      if (sp) r.kv("empty", empty).raw("call", call.str());
-      lists.el_raw(r.str());
+      lists_j.el_raw(r.str());
     }
     cbs.clear();
     combs.clear();
-    std::vector<int> el;
-    for (int j = 1; j <= NE; ++j) el.push_back(elive(j) ? 1 : 0);
-    std::string const res = ",\"lists\":" + lists.str() + ",\"elive\":" + vj::arr(el) + ",\"unreg\":" + vj::arr(unreg);
+    std::vector<int> el, hold;
+    for (int j = 1; j <= NE; ++j) el.push_back(conn_alive(j) ? 1 : 0);
+    for (int j = 1; j <= NE; ++j) hold.push_back(H[ix(j)].id);
+    vj::J boxes_j('[');
+    for (int b = 1; b <= NB; ++b) boxes_j.el_raw(vj::J().kv("live", blive(b)).kv("ids", bid[ix(b)]).str());
+    std::string const res = ",\"lists\":" + lists_j.str() + ",\"elive\":" + vj::arr(el) + ",\"unreg\":" + vj::arr(unreg) + ",\"hold\":" + vj::arr(hold) + ",\"boxes\":" + boxes_j.str();
     unreg.clear();
     return res;
   }
-};
 
-using sig_plain = fcppt::signal::object<int(int)>;
-using sig_unreg = fcppt::signal::object<int(int), fcppt::signal::unregister::base>;
-using vsig_plain = fcppt::signal::object<void(int)>;
-using vsig_unreg = fcppt::signal::object<void(int), fcppt::signal::unregister::base>;
+  bool random_op(vj::Rng &rng, op &o, int const level) const override
+  {
+    static std::vector<std::pair<char const *, int>> const w0 = {
+        {"sig_ctor", 4}, {"sig_move_ctor", 3}, {"sig_move_assign", 5}, {"sig_dtor", 2}, {"connect", 9}, {"disconnect", 5}};
+    static std::vector<std::pair<char const *, int>> const w = {
+        {"sig_ctor", 4}, {"sig_move_ctor", 3}, {"sig_move_assign", 5}, {"sig_dtor", 2}, {"connect", 10}, {"disconnect", 4},
+        {"hold_move", 2}, {"hold_assign", 2}, {"box_ctor", 1}, {"box_push", 3}, {"box_dtor", 1}};
+    static std::vector<std::pair<char const *, int>> const wo = {
+        {"sig_ctor", 4}, {"sig_move_ctor", 2}, {"sig_move_assign", 3}, {"sig_dtor", 1}, {"connect", 10}, {"disconnect", 3},
+        {"hold_move", 1}, {"hold_assign", 1}, {"box_ctor", 1}, {"box_push", 2}, {"box_dtor", 1},
+        {"reent_connect", 5}, {"reent_drop", 5}, {"unreg_drop", 3}};
+    std::string const kind = weighted(rng, level == 2 ? wo : level == 1 ? w : w0);
+    auto ls = sigs(true), ds = sigs(false), fh = holders(true), eh = holders(false), lb = boxes(true), db = boxes(false);
+    o = op{};
+    o.name = kind;
+    if (kind == "sig_ctor") { if (ds.empty()) return false; o.l = pick(rng, ds); }
+    else if (kind == "sig_move_ctor") { if (ds.empty() || ls.empty()) return false; o.l = pick(rng, ds); o.l2 = pick(rng, ls); }
+    else if (kind == "sig_move_assign")
+    {
+      if (ls.size() < 2) return false;
+      o.l = pick(rng, ls);
+      do o.l2 = pick(rng, ls); while (o.l2 == o.l);
+    }
+    else if (kind == "sig_dtor") { if (ls.empty()) return false; o.l = pick(rng, ls); }
+    else if (kind == "connect") { if (eh.empty() || ls.empty()) return false; o.e = pick(rng, eh); o.l = pick(rng, ls); }
+    else if (kind == "disconnect") { if (fh.empty()) return false; o.e = pick(rng, fh); }
+    else if (kind == "hold_move") { if (fh.empty() || eh.empty()) return false; o.e = pick(rng, eh); o.e2 = pick(rng, fh); }
+    else if (kind == "hold_assign")
+    {
+      if (fh.size() < 2) return false;
+      o.e = pick(rng, fh);
+      do o.e2 = pick(rng, fh); while (o.e2 == o.e);
+    }
+    else if (kind == "box_ctor") { if (db.empty()) return false; o.b = pick(rng, db); }
+    else if (kind == "box_push") { if (lb.empty() || fh.empty()) return false; o.b = pick(rng, lb); o.e = pick(rng, fh); }
+    else if (kind == "box_dtor") { if (lb.empty()) return false; o.b = pick(rng, lb); }
+    else if (kind == "reent_connect" || kind == "reent_drop")
+    {
+      // the acting connection is one the signal was SEEN to call in the last observation
+      if (ls.empty()) return false;
+      o.l = pick(rng, ls);
+      auto const &lc = last_called[ix(o.l)];
+      if (lc.empty()) return false;
+      o.e = pick(rng, lc);
+      if (kind == "reent_connect") { if (eh.empty()) return false; o.e2 = pick(rng, eh); }
+      else { if (fh.empty()) return false; o.e2 = pick(rng, fh); }
+    }
+    else if (kind == "unreg_drop")
+    {
+      if (fh.size() < 2) return false;
+      o.e = pick(rng, fh);
+      do o.e2 = pick(rng, fh); while (o.e2 == o.e);
+    }
+    return pre(o);
+  }
+
+  int alive_count() const override { return static_cast<int>(sigs(true).size() + holders(true).size() + boxes(true).size()); }
+
+  bool next_cleanup(op &o, unsigned order, vj::Rng *rng) const override
+  {
+    auto ls = sigs(true), fh = holders(true), lb = boxes(true);
+    std::vector<op> all;
+    for (int l : ls) all.push_back(mk("sig_dtor", l));
+    for (int h : fh) all.push_back(mk("disconnect", 0, 0, h));
+    for (int b : lb) all.push_back(mk("box_dtor", 0, 0, 0, 0, b));
+    if (all.empty()) return false;
+    if (rng != nullptr) { o = all[static_cast<std::size_t>(rng->below(all.size()))]; return true; }
+    switch (order % 3U)
+    {
+    case 0: o = all.front(); break;                // signals before their connections
+    case 1: o = all.back(); break;                 // containers, then holders, then signals
+    default: o = all[all.size() / 2U]; break;
+    }
+    return true;
+  }
+};
 
 struct flavour
 {
-  char const *name;
-  bool res, unr;
+  std::string name;
+  bool list = false, res = false, unr = false;
+  int arity = 1;
 };
-constexpr flavour flavours[] = {{"list", false, false}, {"sig", true, false}, {"usig", true, true}, {"vsig", false, false}, {"uvsig", false, true}};
 
-std::unique_ptr<driver> make_driver(std::string const &fl)
+flavour parse_flavour(std::string const &fl)
 {
-  if (fl == "list") return std::make_unique<list_driver>();
-  if (fl == "sig") return std::make_unique<sig_driver<sig_plain, true, false>>();
-  if (fl == "usig") return std::make_unique<sig_driver<sig_unreg, true, true>>();
-  if (fl == "vsig") return std::make_unique<sig_driver<vsig_plain, false, false>>();
-  if (fl == "uvsig") return std::make_unique<sig_driver<vsig_unreg, false, true>>();
-  throw std::runtime_error("unknown flavour " + fl);
+  flavour f;
+  f.name = fl;
+  if (fl == "list") { f.list = true; return f; }
+  std::string r = fl;
+  if (!r.empty() && r[0] == 'u') { f.unr = true; r.erase(0, 1); }
+  f.res = true;
+  if (!r.empty() && r[0] == 'v') { f.res = false; r.erase(0, 1); }
+  if (r == "sig") f.arity = 1;
+  else if (r == "sig0") f.arity = 0;
+  else if (r == "sig2") f.arity = 2;
+  else throw std::runtime_error("unknown flavour " + fl);
+  return f;
 }
 
-flavour const &flavour_of(std::string const &fl)
+template <int A>
+std::unique_ptr<driver> make_sig(flavour const &f, bool const opt)
 {
-  for (auto const &f : flavours)
-    if (fl == f.name) return f;
-  throw std::runtime_error("unknown flavour " + fl);
+  if (f.res && f.unr) return std::make_unique<sig_driver<A, true, true>>(opt);
+  if (f.res) return std::make_unique<sig_driver<A, true, false>>(opt);
+  if (f.unr) return std::make_unique<sig_driver<A, false, true>>(opt);
+  return std::make_unique<sig_driver<A, false, false>>(opt);
+}
+
+std::unique_ptr<driver> make_driver(flavour const &f, bool const opt_holders)
+{
+  if (f.list) return std::make_unique<list_driver>();
+  if (f.arity == 0) return make_sig<0>(f, opt_holders);
+  if (f.arity == 1) return make_sig<1>(f, opt_holders);
+  return make_sig<2>(f, opt_holders);
 }
 
 // ------------------------------------------------------------------------------ running
@@ -339,219 +827,72 @@ struct runner
   driver &d;
   int index = 0;
   explicit runner(driver &_d) : d(_d) {}
-  // a script that names a dead operand / an occupied slot is a bug of the script's producer
-  void check_pre(op const &o) const
+  void step(op const &_o)
   {
-    auto const need = [&](bool c) { if (!c) throw std::runtime_error("operation outside the API precondition: " + o.name); };
-    auto const lr = [](int x) { return x >= 1 && x <= NL; };
-    auto const er = [](int x) { return x >= 1 && x <= NE; };
-    std::string const &n = o.name;
-    if (n == "list_ctor" || n == "sig_ctor") need(lr(o.l) && !d.llive(o.l));
-    else if (n == "list_move_ctor" || n == "sig_move_ctor") need(lr(o.l) && lr(o.l2) && !d.llive(o.l) && d.llive(o.l2));
-    else if (n == "list_move_assign" || n == "sig_move_assign") need(lr(o.l) && lr(o.l2) && o.l != o.l2 && d.llive(o.l) && d.llive(o.l2));
-    else if (n == "list_dtor" || n == "sig_dtor") need(lr(o.l) && d.llive(o.l));
-    else if (n == "elem_ctor" || n == "connect") need(er(o.e) && lr(o.l) && !d.elive(o.e) && d.llive(o.l));
-    else if (n == "elem_move_ctor") need(er(o.e) && er(o.e2) && !d.elive(o.e) && d.elive(o.e2));
-    else if (n == "elem_move_assign") need(er(o.e) && er(o.e2) && o.e != o.e2 && d.elive(o.e) && d.elive(o.e2));
-    else if (n == "elem_dtor" || n == "unlink" || n == "disconnect") need(er(o.e) && d.elive(o.e));
-    else need(false);
-  }
-  void step(op const &o)
-  {
-    check_pre(o);
+    op o = _o;
+    if (!d.pre(o))
+    {
+      // Stepping the held iterator is only done from a position where it is memory safe, and that
+      // is decided from what the LIBRARY shows (addresses, operator==, empty()): a scripted step
+      // the harness cannot take is logged as refused (the judge knows whether it should have been
+      // possible).  Every other precondition depends on the harness' own bookkeeping only: there
+      // a failure is a bug of the script's producer.
+      if (o.name != "iter_inc" && o.name != "iter_dec")
+        throw std::runtime_error("operation outside the API precondition: " + o.name);
+      o.mode = o.name == "iter_inc" ? 1 : 2;
+      o.name = "iter_refused";
+    }
     ++index;
     vj::begin_call(op_prefix(index, o));
-    d.apply(o);
-    std::string const obs = d.observe(index);
+    if (o.name != "iter_refused") d.apply(o, index);
+    std::string const obs = d.observe(index, o);
     vj::end_call(obs + "}");
   }
 };
 
-std::vector<int> live_lists(driver const &d)
+void reset_line(long long h, flavour const &f, char const *mode, bool observed, bool opt_holders)
 {
-  std::vector<int> r;
-  for (int k = 1; k <= NL; ++k)
-    if (d.llive(k)) r.push_back(k);
-  return r;
-}
-std::vector<int> dead_lists(driver const &d)
-{
-  std::vector<int> r;
-  for (int k = 1; k <= NL; ++k)
-    if (!d.llive(k)) r.push_back(k);
-  return r;
-}
-std::vector<int> live_elems(driver const &d)
-{
-  std::vector<int> r;
-  for (int k = 1; k <= NE; ++k)
-    if (d.elive(k)) r.push_back(k);
-  return r;
-}
-std::vector<int> dead_elems(driver const &d)
-{
-  std::vector<int> r;
-  for (int k = 1; k <= NE; ++k)
-    if (!d.elive(k)) r.push_back(k);
-  return r;
+  vj::line(vj::J().kv("e", "reset").kv("h", h).kv("fl", f.name).kv("list", f.list).kv("res", f.res).kv("unr", f.unr).kv("arity", f.arity).kv("observed", observed).kv("opt_holders", opt_holders).kv("mode", mode));
 }
 
-op dtor_list(driver const &d, int l)
-{
-  op o;
-  o.name = d.is_list() ? "list_dtor" : "sig_dtor";
-  o.l = l;
-  return o;
-}
-op dtor_elem(driver const &d, int e)
-{
-  op o;
-  o.name = d.is_list() ? "elem_dtor" : "disconnect";
-  o.e = e;
-  return o;
-}
-
-void reset_line(long long h, std::string const &fl, char const *mode)
-{
-  flavour const &f = flavour_of(fl);
-  vj::line(vj::J().kv("e", "reset").kv("h", h).kv("fl", fl).kv("list", fl == "list").kv("res", f.res).kv("unr", f.unr).kv("mode", mode));
-}
-
-// destroy whatever is still alive, as logged operations; order chosen by `order`
 void cleanup(runner &r, unsigned order, vj::Rng *rng)
 {
-  driver &d = r.d;
-  if (rng != nullptr)
-  {
-    for (;;)
-    {
-      auto ls = live_lists(d);
-      auto es = live_elems(d);
-      if (ls.empty() && es.empty()) break;
-      std::size_t const pick = static_cast<std::size_t>(rng->below(ls.size() + es.size()));
-      if (pick < ls.size()) r.step(dtor_list(d, ls[pick]));
-      else r.step(dtor_elem(d, es[pick - ls.size()]));
-    }
-    return;
-  }
-  switch (order % 3U)
-  {
-  case 0: // lists before their elements
-    for (int l : live_lists(d)) r.step(dtor_list(d, l));
-    for (int e : live_elems(d)) r.step(dtor_elem(d, e));
-    break;
-  case 1:
-    for (int e : live_elems(d)) r.step(dtor_elem(d, e));
-    for (int l : live_lists(d)) r.step(dtor_list(d, l));
-    break;
-  default:
-  {
-    auto ls = live_lists(d);
-    auto es = live_elems(d);
-    while (!ls.empty() || !es.empty())
-    {
-      if (!es.empty()) { r.step(dtor_elem(d, es.back())); es.pop_back(); }
-      if (!ls.empty()) { r.step(dtor_list(d, ls.back())); ls.pop_back(); }
-    }
-  }
-  }
-}
-
-int pick(vj::Rng &rng, std::vector<int> const &v) { return v[static_cast<std::size_t>(rng.below(v.size()))]; }
-
-// one random operation that satisfies the API precondition (operands alive, slots free, no
-// self-move); returns false if the drawn kind is not enabled
-bool random_op(vj::Rng &rng, driver const &d, op &o)
-{
-  static std::vector<std::pair<char const *, int>> const lw = {
-      {"list_ctor", 4}, {"list_move_ctor", 3}, {"list_move_assign", 5}, {"list_dtor", 2}, {"elem_ctor", 8},
-      {"elem_move_ctor", 3}, {"elem_move_assign", 3}, {"elem_dtor", 4}, {"unlink", 2}};
-  static std::vector<std::pair<char const *, int>> const sw = {
-      {"sig_ctor", 4}, {"sig_move_ctor", 3}, {"sig_move_assign", 5}, {"sig_dtor", 2}, {"connect", 9}, {"disconnect", 5}};
-  auto const &w = d.is_list() ? lw : sw;
-  int total = 0;
-  for (auto const &p : w) total += p.second;
-  int x = static_cast<int>(rng.below(static_cast<std::uint64_t>(total)));
-  std::string kind;
-  for (auto const &p : w)
-  {
-    if (x < p.second) { kind = p.first; break; }
-    x -= p.second;
-  }
-  auto ll = live_lists(d), dl = dead_lists(d);
-  auto le = live_elems(d), de = dead_elems(d);
-  o = op{};
-  o.name = kind;
-  if (kind == "list_ctor" || kind == "sig_ctor")
-  {
-    if (dl.empty()) return false;
-    o.l = pick(rng, dl);
-  }
-  else if (kind == "list_move_ctor" || kind == "sig_move_ctor")
-  {
-    if (dl.empty() || ll.empty()) return false;
-    o.l = pick(rng, dl);
-    o.l2 = pick(rng, ll);
-  }
-  else if (kind == "list_move_assign" || kind == "sig_move_assign")
-  {
-    if (ll.size() < 2) return false;
-    o.l = pick(rng, ll);
-    do o.l2 = pick(rng, ll); while (o.l2 == o.l);
-  }
-  else if (kind == "list_dtor" || kind == "sig_dtor")
-  {
-    if (ll.empty()) return false;
-    o.l = pick(rng, ll);
-  }
-  else if (kind == "elem_ctor" || kind == "connect")
-  {
-    if (de.empty() || ll.empty()) return false;
-    o.e = pick(rng, de);
-    o.l = pick(rng, ll);
-  }
-  else if (kind == "elem_move_ctor")
-  {
-    if (de.empty() || le.empty()) return false;
-    o.e = pick(rng, de);
-    o.e2 = pick(rng, le);
-  }
-  else if (kind == "elem_move_assign")
-  {
-    if (le.size() < 2) return false;
-    o.e = pick(rng, le);
-    do o.e2 = pick(rng, le); while (o.e2 == o.e);
-  }
-  else // elem_dtor, unlink, disconnect
-  {
-    if (le.empty()) return false;
-    o.e = pick(rng, le);
-  }
-  return true;
+  op o;
+  int guard = 0;
+  while (r.d.next_cleanup(o, order, rng) && guard++ < 8 * (NL + NE + NB)) r.step(o);
 }
 
 int record(char const *out, std::uint64_t seed, long long first, long long count, int maxlen)
 {
   vj::open(out);
-  static char const *const cycle[] = {"list", "sig", "list", "usig", "list", "vsig", "list", "uvsig"};
+  static char const *const cycle[] = {"list", "sig", "list", "usig", "list", "vsig", "list", "uvsig",
+                                      "list", "sig0", "list", "usig2", "list", "vsig2", "list", "uvsig0",
+                                      "list", "sig2", "list", "usig0", "list", "vsig0", "list", "uvsig2"};
   for (long long h = first; h < first + count; ++h)
   {
     // every history has its own generator state, so that a run can be resumed at any history
     vj::Rng rng(seed * 1000003ULL + static_cast<std::uint64_t>(h));
-    std::string const fl = cycle[h % 8];
-    reset_line(h, fl, "record");
+    flavour const f = parse_flavour(cycle[h % 24]);
+    // every 5th signal history is an "observed" one (reentrant operations, never judged); of the
+    // others every second signal history and every third list history is "extended" (also the
+    // operations the statement of C11 does not name: unlink, iterators, owners of connections)
+    long long const k = h / 2;
+    bool const observed = !f.list && k % 5 == 4;
+    int const level = observed ? 2 : f.list ? (k % 3 == 2 ? 1 : 0) : (k % 2 == 1 ? 1 : 0);
+    bool const opt_holders = (h / 24) % 2 == 1;
+    reset_line(h, f, "record", observed, opt_holders);
     alarm(20);
     {
-      std::unique_ptr<driver> d = make_driver(fl);
+      std::unique_ptr<driver> d = make_driver(f, opt_holders);
       runner r(*d);
       int const want = static_cast<int>(rng.range(1, maxlen));
       int guard = 0;
       while (guard++ < 20 * maxlen)
       {
-        int const alive = static_cast<int>(live_lists(*d).size() + live_elems(*d).size());
-        if (r.index + alive + 2 > want) break;
+        // leave room for the destruction of what is alive
+        if (r.index + d->alive_count() + 2 > want) break;
         op o;
-        if (!random_op(rng, *d, o)) continue;
+        if (!d->random_op(rng, o, level)) continue;
         r.step(o);
       }
       cleanup(r, 0, &rng);
@@ -567,14 +908,19 @@ int replay(std::string const &fl, char const *scripts, char const *out, long lon
 {
   vj::open(out);
   auto lines = vj::read_lines(scripts);
+  flavour const f = parse_flavour(fl);
   long long h = offset; // index of the first script (the destruction order is index mod 3)
   for (auto const &ln : lines)
   {
     vj::VP s = vj::parse(ln);
-    reset_line(h, fl, "replay");
+    bool const opt_holders = (h / 3) % 2 == 1;
+    bool observed = false; // a saved history with reentrant operations is never judged
+    for (auto const &x : s->a)
+      if (x->str("op").rfind("reent_", 0) == 0 || x->str("op") == "unreg_drop") observed = true;
+    reset_line(h, f, "replay", observed, opt_holders);
     alarm(20);
     {
-      std::unique_ptr<driver> d = make_driver(fl);
+      std::unique_ptr<driver> d = make_driver(f, opt_holders);
       runner r(*d);
       for (auto const &x : s->a)
       {
@@ -584,6 +930,8 @@ int replay(std::string const &fl, char const *scripts, char const *out, long lon
         o.l2 = static_cast<int>(x->num_or("l2", 0));
         o.e = static_cast<int>(x->num_or("x", 0));
         o.e2 = static_cast<int>(x->num_or("x2", 0));
+        o.b = static_cast<int>(x->num_or("b", 0));
+        o.mode = static_cast<int>(x->num_or("mode", 0));
         r.step(o);
       }
       cleanup(r, static_cast<unsigned>(h), nullptr);
@@ -595,6 +943,24 @@ int replay(std::string const &fl, char const *scripts, char const *out, long lon
   vj::close();
   return 0;
 }
+
+// A callback that destroys its OWN connection while it runs.  signal.doxygen does not say whether
+// that is allowed; the outcome (exit code 66 = sanitizer report) is recorded as an observation.
+int probe_drop_self()
+{
+  using sig = fcppt::signal::object<void(int)>;
+  sig s;
+  std::optional<fcppt::signal::auto_connection> c1, c2;
+  int calls = 0;
+  c1.emplace(s.connect(sig::function{[&c1, &calls](int) { ++calls; c1.reset(); }}));
+  c2.emplace(s.connect(sig::function{[&calls](int) { ++calls; }}));
+  s(1);
+  std::printf("probe_drop_self: first call ran %d callbacks\n", calls);
+  calls = 0;
+  s(2);
+  std::printf("probe_drop_self: second call ran %d callbacks\n", calls);
+  return 0;
+}
 }
 
 int main(int argc, char **argv)
@@ -604,7 +970,8 @@ try
   if (mode == "record" && argc == 7)
     return record(argv[2], std::strtoull(argv[3], nullptr, 10), std::atoll(argv[4]), std::atoll(argv[5]), std::atoi(argv[6]));
   if (mode == "replay" && (argc == 5 || argc == 6)) return replay(argv[2], argv[3], argv[4], argc == 6 ? std::atoll(argv[5]) : 0);
-  std::fprintf(stderr, "usage: c11_intrusive record OUT seed first count maxlen | replay FLAVOUR SCRIPTS OUT [first]\n");
+  if (mode == "probe_drop_self") return probe_drop_self();
+  std::fprintf(stderr, "usage: c11_intrusive record OUT seed first count maxlen | replay FLAVOUR SCRIPTS OUT [first] | probe_drop_self\n");
   return 3;
 }
 catch (std::exception const &e)
